@@ -84,7 +84,27 @@ fn float(rng: &mut Rng) -> String {
         2 => format!("{}{}e{}", rng.pick(&["", "-"]), 1 + rng.below(9), rng.range(-20, 20)),
         3 => format!("{}.{}e+{}", rng.below(10), rng.below(100), rng.below(30)),
         4 => format!("{}.{}E-{}", rng.below(10), rng.below(100), rng.below(30)),
-        5 => rng.pick(&["0.0", "-0.0", "+0.0", "1e0", "6.626e-34", "224_617.445_991_228", "9_224_617.445_991_228_313", "1e1_0"]).to_string(),
+        5 => rng
+            .pick(&[
+                "0.0",
+                "-0.0",
+                "+0.0",
+                "1e0",
+                "6.626e-34",
+                "224_617.445_991_228",
+                "9_224_617.445_991_228_313",
+                "1e1_0",
+                // the edges of the double range: subnormals, the smallest normal, the largest finite
+                "5e-324",
+                "1e-310",
+                "-4e-315",
+                "2.2250738585072011e-308",
+                "2.2250738585072014e-308",
+                "1.7976931348623157e308",
+                "-1.7976931348623157e+308",
+                "1e-400",
+            ])
+            .to_string(),
         _ => format!("{}.{:03}", rng.range(-1000, 1000), rng.below(1000)),
     }
 }
